@@ -25,6 +25,8 @@ func main() {
 	switch os.Args[1] {
 	case "check":
 		os.Exit(check(os.Args[2:]))
+	case "dbg":
+		os.Exit(dbgCallees(os.Args[2:]))
 	case "dump":
 		os.Exit(dump(os.Args[2:]))
 	case "list":
